@@ -1,7 +1,13 @@
 """C07: a Maven resolution graph obeys Maven's mediation rules.
 Seeded universes over the pools of MavenModel.tla (soft versions, hard ranges, root dependencyManagement, exclusions incl.
 wildcards, scopes, optional, classifiers/types, diamonds, cycles) -> real Maven resolver over a LocalClient -> TLC MavenTrace
-evaluates MavenModel!MavenViolations on every recorded (universe, root, graph)."""
+evaluates MavenModel!MavenViolations on every recorded (universe, root, graph).
+Second source of universes: MavenResolve.tla models the resolver itself (queue, requirement map kept across restarts, findMatch)
+as a state machine; TLC MavenResolveMC explores it on EVERY universe of a small family around the restart path, checks
+termination and the structural laws on the MODEL's graphs, and emits each universe with the model's graph; the real resolver
+is run on all of them, judged by the same laws, and compared with the model (information: does the spec still describe the
+code).  A separate configuration states nearest-wins on the model and is EXPECTED to fail: TLC's counterexample is the
+design-level form of recorded finding C07-F25."""
 import json, os, random, time
 import vlib
 
@@ -87,6 +93,21 @@ def run(ctx):
         for k in range(12000 if ctx.tier == "quick" else 150000):
             uni, root = gen_universe(rng, tables, soft_only=(k % 3 == 0))
             cases.append({"universe": uni, "root": root, "softonly": k % 3 == 0})
+    mr_states = mr_gen = nmodel = 0
+    design_cex = None
+    if not ctx.replay:
+        modelf = os.path.join(wdir, "model_cases.raw")
+        rm = vlib.tlc("MavenResolveMC", os.path.join(vlib.SPEC, "MavenResolveMC_%s.cfg" % ctx.tier), wdir, env={"VERIF_OUT": modelf}, workers=12, timeout=2400, heap="10g")
+        vlib.tlc_must_pass(rm, "MavenResolveMC (termination and structural laws on the algorithm model)")
+        mr_states, mr_gen = rm.distinct, rm.generated
+        mcases = vlib.read_ndjson(modelf)
+        nmodel = len(mcases)
+        cases = mcases + cases
+        rn = vlib.tlc("MavenResolveMC", os.path.join(vlib.SPEC, "MavenResolveMC_nearest.cfg"), wdir, env={"VERIF_OUT": os.path.join(wdir, "unused.raw")}, workers=1, timeout=1200, heap="6g")
+        if rn.error:
+            raise vlib.Trouble("MavenResolveMC_nearest: %s" % rn.error)
+        design_cex = "TLC violates DoneNearest on the algorithm model after %d distinct states (expected: C07-F25 exists at design level)" % rn.distinct if rn.violation else \
+                     "DoneNearest holds on the algorithm model (the design-level form of C07-F25 is gone)"
     casef = os.path.join(wdir, "cases.ndjson")
     obsf = os.path.join(wdir, "obs.ndjson")
     vlib.write_ndjson(casef, cases)
@@ -105,9 +126,13 @@ def run(ctx):
         resolved += 1
         if len(o["graph"]["nodes"]) >= 4:
             nontrivial += 1
+    model_diff = []
     for idx, x in rej:
         o = json.loads(lines[idx - 1])
         g = o["graph"]
+        if x["law"].startswith("info-"):
+            model_diff.append({"law": x["law"], "universe": o["universe"], "graph": g, "model": o.get("model")})
+            continue
         detail = {"k": x["k"]}
         if x["k"] and x["law"] in ("two-versions-of-one-artifact", "range-edge-outside-range", "non-root-test-optional-provided-followed",
                                    "excluded-artifact-reached", "management-not-applied", "management-applied-to-root-declaration"):
@@ -124,14 +149,19 @@ def run(ctx):
         print("replay: case no longer fails on the current tree")
         return 0
     rc = verdict.finish(wdir)
+    if model_diff:
+        json.dump(model_diff[:20], open(os.path.join(wdir, "model_divergence.json"), "w"), indent=1)
+        print("NOTE: the real resolver differs from the algorithm model MavenResolve.tla on %d of %d family universes (not a verdict; see %s)"
+              % (len(model_diff), nmodel, os.path.join(wdir, "model_divergence.json")))
     s = next(json.loads(l) for l in lines if json.loads(l)["ok"])
-    cov = {"states": states + r0.distinct, "transitions": gen + r0.generated, "traces_validated_against_impl": resolved, "evaluations": len(lines),
+    cov = {"states": states + r0.distinct + mr_states, "transitions": gen + r0.generated + mr_gen, "traces_validated_against_impl": resolved, "evaluations": len(lines),
            "distinct_nontrivial": nontrivial,
-           "rule": "seeded Maven universes over the pools of MavenModel.tla (every third one soft-only so that nearest-wins is judged); "
+           "rule": "every universe of the MavenResolveMC family (TLC-enumerated, with the algorithm model's graph) + seeded Maven universes over the pools of MavenModel.tla (every third one soft-only); "
                    "non-trivial = resolved graph with >= 4 nodes; %d resolutions ended in a resolver error (not judged)" % errs,
            "samples": [{"root": s["root"], "artifacts": len(s["universe"]), "graph": s["graph"]}],
-           "known_findings_hit": {k: v[0] for k, v in verdict.hits.items()}, "exhaustive": False}
+           "known_findings_hit": {k: v[0] for k, v in verdict.hits.items()}, "exhaustive": False,
+           "algorithm_model": {"family_universes": nmodel, "states": mr_states, "real_resolver_differs_on": len(model_diff), "nearest_wins_on_the_model": design_cex}}
     vlib.write_evidence(pid, ctx.tier, ctx.seed, "model_checking", cov, time.time() - t0, violations=len(verdict.violations),
                         assumptions=["TLC 1.8.0", "VersionRange semantics and ComparableVersion order from Ranges.tla / Order.tla", "single registry",
-                                     "nearest-wins is judged only on resolutions whose every declaration is soft (requirements accumulated in restarted attempts are invisible in the final graph)"])
+                                     "nearest-wins is judged per artifact key that no declaration of the universe constrains with a range; the restart staleness of the clean tree is modelled as named deviations (C07-F25)"])
     return rc
